@@ -14,11 +14,11 @@ CLAIMED = {
          "DESIGN.md §6 C02"),
  "C06": ("exploration", "bounded-exhaustive enumeration of inputs (E1 sweep) plus population worlds around the candidate limit",
          "Per-candidate oracle on every completion result of the E1 product with prefill off and on (edit applicability, tab-stop grammar), list length against the limit.",
-         "Snippet grammar parsed with a small regular grammar honouring backslash-dollar; an HCL-escaped literal template marker ($${) in the plain text is text, not a tab stop. The run of tab-stop numbers must be gap-free; it need not start at 1 (label candidates start at 2).",
+         "Snippets are read the way a client reads them (a backslash escapes the next character, so an escaped backslash leaves a following dollar live); an HCL-escaped literal template marker ($${) in the plain text is text, not a tab stop. The run of tab-stop numbers is gap-free and starts at 1 (2 for label candidates); the snippet of a value candidate without tab stops inserts exactly the plain text.",
          "DESIGN.md §6 C06"),
  "C12": ("exploration", "bounded-exhaustive enumeration of inputs (E1 sweep), safety oracle on every hover result",
          "Hover at every cursor of every file: nil/error or non-empty content with a range containing the cursor in the requested file.",
-         "Exactness of the content against the effective schema is checked only on generator-built files.",
+         "Exactness of the content against the effective schema is checked only on generator-built files; under a TypeDeclaration constraint the description is compared with what hcl's typeexpr makes of the same sub-expression (nothing that is no type is described as one; the key of an object type item names its value's type).",
          "DESIGN.md §6 C12"),
  "C13": ("exploration", "bounded-exhaustive enumeration of inputs (E1 sweep), structural oracle on every token list",
          "Token lists of every file incl. broken ones: sorted, disjoint, non-empty, advertised types, well-formed ranges; on generator-built files exactly the schema-known names/types/labels with the modifiers of all enclosing blocks, one literal token per plain literal, reference-step tokens for exactly the collected origins that resolve (a resolved plain traversal: one token per step on the step's own extent).",
@@ -54,7 +54,7 @@ CLAIMED = {
          "DESIGN.md §6 C07"),
  "C08": ("exploration", "bounded-exhaustive enumeration of value-completion cursors (E1 sweep) with per-candidate oracles and an accept / re-collect / go-to-definition round trip",
          "Every completion candidate inside an attribute value: reference candidates name a collected declaration, start with the typed text, are visible, are not the edited attribute and (top-level positions) fit scope/type or contain a nested declaration that does; function candidates are known and convertible; keyword/boolean candidate sets are exactly the admitted ones; accepted fitting references resolve back to their declaration.",
-         "The expected scope/type is known at top-level value positions and at plain operands of operators (the operator's parameter type); other nested positions get the weaker checks. Literal candidates of LiteralValue / LiteralType constraints are accepted and re-parsed (LiteralValue: must evaluate to the value) under stated premises.",
+         "The expected scope/type is known at top-level value positions and at plain operands of operators (the operator's parameter type); other nested positions get the weaker checks. Literal candidates of LiteralValue / LiteralType / TypeDeclaration constraints are accepted and re-parsed (LiteralValue: must evaluate to the value, its snippet must insert the plain text; type declarations: the name = type item only between the braces of an object type) under stated premises.",
          "DESIGN.md §6 C08"),
  "C09": ("exploration", "bounded-exhaustive enumeration of configs for every addressable schema form (E1 sweep) with forest invariants and a top-level reference model",
          "On every collected forest: nested address = parent + one step, indexes = real positions in source order, unique steps, elements inside written values, element ranges disjoint, definition range inside range; on cleanly parsing files every range is an item extent, every addressable declaration with a resolvable address has its target with the declaration's extent/header, as-reference targets are type-less, nothing is collected inside items unknown to the effective schema.",
